@@ -2,6 +2,7 @@
 package main
 
 import (
+	"syscall"
 	"verif/mc/dirmodel"
 	"crypto/sha256"
 	"encoding/hex"
@@ -66,6 +67,8 @@ func snapshot(root string) snap {
 		case d.Type()&fs.ModeSymlink != 0:
 			t, _ := os.Readlink(p)
 			s[rel] = "l:" + t
+		case d.Type()&(fs.ModeNamedPipe|fs.ModeSocket|fs.ModeDevice) != 0:
+			s[rel] = "special:" + d.Type().String()
 		default:
 			b, _ := os.ReadFile(p)
 			h := sha256.Sum256(b)
@@ -172,6 +175,12 @@ func eval(c Case, sandbox string) hx.Result {
 			if _, e := os.Stat(last); e == nil {
 				_ = os.WriteFile(filepath.Join(last, "sibling.json"), []byte(`{"cdiVersion":"1.0.0","kind":"other.org/k","devices":[{"name":"s","containerEdits":{"env":["SRC=sibling"]}}]}`), 0o644)
 				_ = os.WriteFile(filepath.Join(last, "sibling.txt"), []byte("text"), 0o644)
+				// entries that are not regular files, named to sort before and after the target: they are no
+				// Spec files and must neither be touched nor get in the way of the one that is written
+				_ = syscall.Mkfifo(filepath.Join(last, "+early-fifo"), 0o644)
+				_ = syscall.Mknod(filepath.Join(last, "+early-socket"), syscall.S_IFSOCK|0o644, 0)
+				_ = syscall.Mkfifo(filepath.Join(last, "~late-fifo"), 0o644)
+				_ = os.Symlink(filepath.Join(last, "no-such-target"), filepath.Join(last, "+dangling-link"))
 				if !strings.ContainsRune(name, 0) {
 					_ = os.WriteFile(target, []byte("old content at the target"), 0o644)
 					// neighbours whose names derive from the target's: the other encoding's extension,
